@@ -57,7 +57,34 @@ TOUR = [
 TOUR_STDIN = "4\r\n5, text\r\na whole line, with comma\r\n"
 
 # Accepted programs with unusual control flow: whatever they do, it must be a BASIC-level outcome (C08)
-ODD = [
+def _jumped_over():
+    """a declaration is jumped over (GOTO, a false one-line IF cannot do that, an error handler can) and the thing it declares
+    is used afterwards in every way"""
+    decls = {"array": ("DIM QA(5)", ["QA(1) = 2", "PRINT QA(1)", "PRINT LBOUND(QA); UBOUND(QA)", "ERASE QA", "TakeA QA(1)", "X = QA(2) + 1", "REDIM QA(3)"]),
+             "strarray": ('DIM QS$(2)', ['QS$(1) = "a"', "PRINT QS$(0)", "PRINT LEN(QS$(1))"]),
+             "record": ("DIM QR AS QT", ["QR.N = 2", "PRINT QR.N", 'QR.S = "abc"', "PRINT QR.S", "TakeA QR.N"]),
+             "recarray": ("DIM QQ(2) AS QT", ["QQ(1).N = 2", "PRINT QQ(1).N", "TakeA QQ(1).N"]),
+             "fixed": ("DIM QF AS STRING * 3", ['QF = "abcdef"', "PRINT QF; LEN(QF)"]),
+             "shared": ("DIM SHARED QG(4)", ["QG(1) = 1", "UseG", "PRINT QG(1)"])}
+    out = []
+    for name, (decl, uses) in decls.items():
+        for use in uses:
+            for how in ("goto", "gosub", "handler"):
+                pre = ["TYPE QT", "  N AS INTEGER", "  S AS STRING * 2", "END TYPE"]
+                if how == "goto":
+                    body = ["GOTO Skip", decl, "Skip:", use, 'PRINT "end"', "END"]
+                elif how == "gosub":
+                    body = ["GOSUB Later", 'PRINT "end"', "END", decl, "Later:", use, "RETURN"]
+                else:
+                    body = ["ON ERROR GOTO Skip", "X = 1 / 0", decl, 'PRINT "end"', "END", "Skip:", use, "RESUME NEXT"]
+                post = ["SUB TakeA (V)", "  V = V + 1", "END SUB"]
+                if name == "shared":
+                    post += ["SUB UseG", "  QG(2) = QG(1) + 1", "  PRINT QG(2)", "END SUB"]
+                out.append("\r\n".join(pre + body + post) + "\r\n")
+    return out
+
+
+ODD = _jumped_over() + [
     'GOTO Inside\r\nFOR I = 1 TO 2\r\nInside:\r\nPRINT I\r\nNEXT\r\n',
     'GOTO Inside\r\nWHILE X < 2\r\nInside:\r\nX = X + 1\r\nWEND\r\nPRINT X\r\n',
     'GOSUB Inside\r\nEND\r\nFOR I = 1 TO 2\r\nInside:\r\nPRINT I\r\nNEXT\r\nRETURN\r\n',
